@@ -128,7 +128,19 @@ def run(ck: Check, prog: Program) -> None:
             miss = any(classify_cond(prog, mr, g.src.ast).kind == 'is-none' and (g.label == 'T') != classify_cond(prog, mr, g.src.ast).negated for g in gs)
             if idv is not None and dotted(idv) == idp and miss and n.id not in cfg.reachable(pn):
                 nf_ok = True
-    if not nf_ok:
+    # the lookup of the patch list must not create an entry: the registry is a defaultdict(lambda: defaultdict(list)), so a
+    # subscript on a miss leaves an empty list behind and the endpoint never becomes "unpatched" again
+    init_m = ci.methods.get('__init__')
+    vivifying = init_m is not None and any(isinstance(x, ast.Call) and (dotted(x.func) or '').endswith('defaultdict') for x in walk_own(init_m.node))
+    for x in walk_own(mr.node):
+        if isinstance(x, ast.Assign) and isinstance(x.targets[0], ast.Name) and x.targets[0].id == lst_var and \
+                isinstance(x.value, ast.Subscript) and '_matches' in norm(x.value.value) and vivifying:
+            nf_ok = nf_ok and False
+            problems.append(('FALLBACKS', 'patch lookup creates an entry for an unpatched method', x.lineno,
+                             f'`{norm(x)}` subscripts a defaultdict: a request for a method that is not patched inserts an empty patch list under '
+                             f'that method, _cleanup_matches only removes the key of the method just served, so after the real patches are used up '
+                             f'the endpoint still counts as patched and answers -32601 instead of being passed through / refused'))
+    if not nf_ok and not any(p_[1].startswith('patch lookup creates') for p_ in problems):
         problems.append(('FALLBACKS', 'unpatched method is not answered with MethodNotFoundError carrying the request id', mr.node.lineno,
                          'a method without patches on a patched endpoint must get -32601 with the id of the request, before any patch is consumed'))
     for rule in ('ROTATE', 'RECORD-BEFORE-REPLY', 'FALLBACKS'):
@@ -287,6 +299,9 @@ def _rotation_vars(mr: FuncInfo) -> Tuple[str, str]:
         if isinstance(x, ast.Assign) and isinstance(x.targets[0], ast.Name) and isinstance(x.value, ast.Call) and \
                 isinstance(x.value.func, ast.Attribute) and x.value.func.attr == 'get' and '_matches' in norm(x.value.func.value):
             lst = x.targets[0].id
+        elif isinstance(x, ast.Assign) and isinstance(x.targets[0], ast.Name) and isinstance(x.value, ast.Subscript) and \
+                '_matches' in norm(x.value.value) and lst is None:
+            lst = x.targets[0].id       # a subscript lookup: FALLBACKS reports the auto-vivification
     if sel is None or lst is None:
         raise AnalysisError(f'{mr.qualname}: selected-patch / patch-list variables not recognised')
     return sel, lst
